@@ -59,6 +59,11 @@ fn c05_mul(v: &[Val]) -> Result<bool, String> {
     if !same_angle(&p.angle, &(a.angle + b.angle)) { return Err(format!("product angle {} is not the angle sum {}", show_a(&p.angle), show_a(&(a.angle + b.angle)))); }
     if !same_geonum(&p, &(b * a)) { return Err("a*b differs from b*a".into()); }
     for (i, x) in [&a * &b, &a * b, a * &b].iter().enumerate() { if !same_geonum(&p, x) { return Err(format!("mul spelling #{} differs", i)); } }
+    // both borrows pointing at one object (`&a * &a`): same result as with a copy
+    { let r = &a; let c = a;
+      if !same_geonum(&(r * r), &(a * c)) { return Err(format!("&a * &a (one object borrowed twice) = {} differs from a * copy(a) = {}", show_g(&(r * r)), show_g(&(a * c)))); }
+      if a.mag != 0.0 { if !same_geonum(&(r / r), &(a / c)) { return Err("&a / &a (one object borrowed twice) differs from a / copy(a)".into()); } }
+      if !same_geonum(&r.dot(r), &a.dot(&c)) || !same_geonum(&r.wedge(r), &a.wedge(&c)) { return Err("a.dot(&a) / a.wedge(&a) (one object borrowed twice) differ from the copies' results".into()); } }
     let one = Geonum::new(1.0, 0.0, 1.0);
     if !same_geonum(&(a * one), &a) || !same_geonum(&(one * a), &a) { return Err(format!("[1,0] is not an identity for {}", show_g(&a))); }
     // Angle * Geonum, Angle + Geonum only rotate
@@ -124,8 +129,8 @@ fn c05_assoc(v: &[Val]) -> Result<bool, String> {
 fn sum_tol(s: f64, r: f64, cb: usize) -> f64 {
     let shift = cb as f64 * QP;
     let dir = 4.0 * ulp_of(shift) + 4.0 * EPS + 2.0 * TOL; // direction error in radians (re-encoding subtracts cb·π/2; the snap to a quarter turn moves it by up to 1e-10)
-    let cancel = if r < 1e-3 * s { 8.0 * EPS.sqrt() * s } else { 64.0 * EPS * s * s / r.max(1e-300) };
-    TOL + r * dir + 64.0 * EPS * s + cancel.min(8.0 * EPS.sqrt() * s)
+    let cancel = if r < 1e-3 * s { 4.0 * EPS.sqrt() * s } else { 64.0 * EPS * s * s / r.max(1e-300) };
+    TOL + r * dir + 64.0 * EPS * s + cancel.min(4.0 * EPS.sqrt() * s)
 }
 /// the same, but the 1e-10 rad direction allowance is granted only when the result's remainder is exactly 0 — the only way the
 /// boundary snap can have moved the direction; otherwise the direction is good to a few ulps of the shifted total
@@ -133,8 +138,8 @@ fn sum_tol_res(s: f64, r: f64, cb: usize, res: &Geonum) -> f64 {
     if res.angle.rem() == 0.0 { return sum_tol(s, r, cb); }
     let shift = (cb as f64 * QP).max(8.0);
     let dir = 8.0 * ulp_of(shift) + 8.0 * EPS;
-    let cancel = if r < 1e-3 * s { 8.0 * EPS.sqrt() * s } else { 64.0 * EPS * s * s / r.max(1e-300) };
-    TOL + r * dir + 64.0 * EPS * s + cancel.min(8.0 * EPS.sqrt() * s)
+    let cancel = if r < 1e-3 * s { 4.0 * EPS.sqrt() * s } else { 64.0 * EPS * s * s / r.max(1e-300) };
+    TOL + r * dir + 64.0 * EPS * s + cancel.min(4.0 * EPS.sqrt() * s)
 }
 /// operands of very different size: the small one is between 1e-15 and 1e-9 of the large one (it must still move the sum)
 fn g_c06(r: &mut Rng) -> Vec<Val> {
@@ -160,6 +165,8 @@ fn c06_sum(v: &[Val]) -> Result<bool, String> {
     }
     let z = a - a;
     if z.mag != 0.0 { return Err(format!("a-a has magnitude {:e}", z.mag)); }
+    { let r = &a; let c = a;
+      if !same_geonum(&(r + r), &(a + c)) || !same_geonum(&(r - r), &(a - c)) { return Err(format!("&a + &a / &a - &a (one object borrowed twice) differ from the results with a copy, a = {}", show_g(&a))); } }
     // a+b vs b+a
     let t = b + a;
     if t.mag.to_bits() != s.mag.to_bits() || t.angle.blade() != s.angle.blade() || (t.angle.rem() - s.angle.rem()).abs() > 1e-15 {
@@ -250,6 +257,9 @@ fn c14_policy(v: &[Val]) -> Result<bool, String> {
 }
 
 // ------------------------------------------------------------------------------------------------ C09 / C10
+fn g_c09(r: &mut Rng) -> Vec<Val> {
+    if r.chance(1, 5) { let (a, b) = gen_dot_threshold_pair(r); vec![Val::G(a), Val::G(b)] } else { g_gg(r) }
+}
 fn c09_dot(v: &[Val]) -> Result<bool, String> {
     let (a, b) = gg(v);
     let d = a.dot(&b);
@@ -407,8 +417,20 @@ fn c12_scale_rotate(v: &[Val]) -> Result<bool, String> {
 // ------------------------------------------------------------------------------------------------ C13
 fn dist_tol(a: &Geonum, b: &Geonum, d: f64) -> f64 {
     let s = a.mag.max(b.mag);
-    let c = if d < 1e-3 * s { 8.0 * EPS.sqrt() * s } else { 64.0 * EPS * s * s / d.max(1e-300) };
-    c.min(8.0 * EPS.sqrt() * s) + 64.0 * EPS * s + 2.0 * TOL * s + TOL
+    let c = if d < 1e-3 * s { 4.0 * EPS.sqrt() * s } else { 64.0 * EPS * s * s / d.max(1e-300) };
+    c.min(4.0 * EPS.sqrt() * s) + 64.0 * EPS * s + 2.0 * TOL * s + TOL
+}
+/// nearly coincident points by DIRECTION: the same ray up to 1e-9.5 … 1e-5 rad, magnitudes equal or a few 1e-12 … 1e-6 apart, any blade history
+fn g_c13d(r: &mut Rng) -> Vec<Val> {
+    if !r.chance(1, 4) { return g_gg(r); }
+    let s = log_uniform(r, -3.0, 4.0);
+    let rem = 0.05 + r.unit() * 1.4;
+    let gap = 10f64.powf(-9.5 + r.unit() * 4.5) * if r.chance(1, 2) { 1.0 } else { -1.0 };
+    let bl = r.below(40) as usize;
+    let a = Geonum::new_with_angle(s, mk_angle(bl, rem));
+    let m = if r.chance(1, 2) { s } else { s * (1.0 + (r.unit() - 0.5) * 10f64.powf(-12.0 + r.unit() * 6.0)) };
+    let b = Geonum::new_with_angle(m, mk_angle(bl + 4 * r.below(3) as usize, rem + gap));
+    if r.chance(1, 2) { vec![Val::G(a), Val::G(b)] } else { vec![Val::G(b), Val::G(a)] }
 }
 fn c13_distance(v: &[Val]) -> Result<bool, String> {
     let (a, b) = gg(v);
@@ -586,7 +608,7 @@ pub fn clauses2() -> Vec<Clause> {
         Clause { prop: "C06", name: "sum", sig: "GG", gen: g_c06, check: c06_sum },
         Clause { prop: "C06", name: "running", sig: "L", gen: g_seq, check: c06_running },
         Clause { prop: "C08", name: "shift", sig: "GGNN", gen: g_shift, check: c08_shift },
-        Clause { prop: "C09", name: "dot", sig: "GG", gen: g_gg, check: c09_dot },
+        Clause { prop: "C09", name: "dot", sig: "GG", gen: g_c09, check: c09_dot },
         Clause { prop: "C10", name: "wedge", sig: "GG", gen: g_gg, check: c10_wedge },
         Clause { prop: "C11", name: "project", sig: "GG", gen: g_gg, check: c11_project },
         Clause { prop: "C11", name: "angle", sig: "GA", gen: g_ga, check: c11_angle },
@@ -594,7 +616,7 @@ pub fn clauses2() -> Vec<Clause> {
         Clause { prop: "C12", name: "rotate", sig: "GA", gen: g_ga, check: c12_rotate },
         Clause { prop: "C12", name: "reflect", sig: "GG", gen: g_gg, check: c12_reflect },
         Clause { prop: "C12", name: "scale_rotate", sig: "GFA", gen: g_sr, check: c12_scale_rotate },
-        Clause { prop: "C13", name: "distance", sig: "GG", gen: g_gg, check: c13_distance },
+        Clause { prop: "C13", name: "distance", sig: "GG", gen: g_c13d, check: c13_distance },
         Clause { prop: "C13", name: "triangle", sig: "GGG", gen: g_ggg, check: c13_triangle },
         Clause { prop: "C13", name: "invert", sig: "GGF", gen: g_inv, check: c13_invert },
         Clause { prop: "C14", name: "policy", sig: "GG", gen: g_c14, check: c14_policy },
